@@ -26,7 +26,7 @@ CLAIMED = {
                 note="float answers are snapped to rationals with denominator <= 500 within 1e-6 or compared at 1e-3"),
     "C05": dict(level="model_checking", ref="4/C05", technique="TLA+ trace validation (SolveTrace!Verdict: integer enumeration + Fourier-Motzkin optimisation as exact oracle) of every solver entry point's verdict on TLC-enumerated LP/MILP models",
                 text="Same events as C04; the verdict (optimum value / infeasible / unbounded, through the dedicated error kinds) must equal the specification's exact verdict; simplex-based entry points must reach a verdict (a watchdog timeout is a violation).",
-                note="optimal values compared at 1e-6 relative after snapping; integer ranges are the small declared ones"),
+                note="optimal values compared at 1e-6 relative after snapping; integer ranges are the small declared ones; the hand-written corpus has degenerate equality systems, rows scaled by 2^-17, contradictions of 2^-18, a bound of 1e7, variables named like the columns of the standard form; two Clarabel models are open known findings (identified by the model)"),
     "C17": dict(level="model_checking", ref="4/C17", technique="TLA+ token-driven reader machine (LpReader.tla) as trace specification of to_lp_format on TLC-generated linear models",
                 text="LpReader.tla is an independent CPLEX-LP reader written as a state machine that consumes one token per step; for every exported text TLC runs it over the real token stream and compares the model read (sense, objective and constant, rows, relations, right-hand sides, names, bounds, binary/general sets) with the model exported.",
                 note="white-space tokenisation and float parsing of numeric tokens happen in the harness; numbers are compared by sign and bit pattern"),
@@ -41,28 +41,28 @@ CLAIMED = {
                 note="value equality on a finite assignment grid; rendering of tokens to text is done by the driver"),
     "C10": dict(level="model_checking", ref="4/C10", technique="TLA+ trace validation of Exp::simplify/flatten on TLC-enumerated trees (RewriteTrace: value equality on all small assignments, idempotence, kept denominators) and of respelled twin models through the text front end (LinTrace predicates + equal acceptance)",
                 text="All trees of depth <= 1 and the depth-2 family of ExprGen.tla are rewritten by the real code and compared by value with the specification's Eval at every small assignment; twins of corpus-K models in other constant spellings must be accepted together and both satisfy the projection/objective predicates against the first spelling's source model.",
-                note="logic operand positions hold logic-typed trees; twin texts are rendered by the driver"),
+                note="a variable that is a direct logic operand is sampled over {0, 1} (the compiler refuses it unless declared Boolean); twin texts are rendered by the driver; part 3: models around trees that hide a zero or variable denominator (families zero and prune) must be refused by Linearizer::linearize (LinTrace!CheckDiv)"),
     "C11": dict(level="model_checking", ref="4/C11", technique="TLA+ trace validation (FormatTrace: idempotence, equal compiled models, value of the formatted expression vs Pratt!Parse of the original tokens) of RoocParser::format on TLC-enumerated expression strings and a program corpus",
                 text="Every expression string TokGen enumerates up to 5 tokens (all parenthesised and implicit-product shapes) plus operator triples and simulated longer strings, and hand-written programs covering blocks, iterations, graphs, indexed/escaped names and all declaration forms, are formatted by the real formatter, formatted again, and compiled before and after; FormatTrace.tla decides parse-ability, idempotence and model equality.",
                 note="constant declarations of every literal kind, name forms and uses come from ConstGen.tla; larger programs are a fixed hand-written corpus (17 programs); model equality is record equality of the serialised Model"),
     "C12": dict(level="exploration", ref="4/C12", technique="TLA+ trace validation (RenderTrace: exact comparison of the recompiled linear model by sign and bit pattern, fixed point of the rendering) of Model::to_string / LinearModel::to_string through the whole real front end",
                 text="Models of the corpus-K families (rendered to source first, a third again with magnitudes 1e-9..1e9) and the program corpus are compiled; both renderings are fed back through parser, type checker, transformer and linearizer; RenderTrace.tla compares variables, domains, objective, offset, sense and the multiset of rows exactly and the second rendering with the first. Three degenerate shapes that cannot survive a text round trip literally are classified by the specification and listed as known findings.",
-                note="sampled families, not exhaustive; differences explained by the three KNOWN-SHAPE classes are reported as known findings, any other difference is a violation"),
+                note="sampled families, not exhaustive; the corpus includes names built from computed and string indices, row names, named constants under unary minus, coefficients beyond the i64 range; differences explained by the KNOWN-SHAPE and KNOWN-NAME classes are reported as known findings, any other difference is a violation"),
     "C03": dict(level="exploration", ref="4/C03", technique="TLA+ trace validation (E2ETrace: reference interpreter Sem!Eval with complete enumeration of the declared domains) of RoocSolver + auto_solver on programs rendered from TLC-generated abstract models",
                 text="Abstract models from the generator machine (family G exhaustive, H simulated) over integer and Boolean domains are rendered to source text with minimal parentheses in two spellings and solved through the one-shot entry point; E2ETrace.tla decides satisfiability, feasibility of the returned values, the reported objective and optimality by enumerating every assignment of the declared domains.",
                 note="integer and Boolean domains only (the linearization families are re-declared over integer ranges; bounded reals are covered compositionally by C01/C02/C05); the renderer is part of the driver"),
     "C18": dict(level="exploration", ref="4/C18", technique="TLA+ stage machine (Pipeline.tla) as trace specification of all public stages run in child processes under a watchdog, on valid programs, TLA+-generated mutation histories (Mutate.tla), a nesting ladder and byte noise",
                 text="Pipeline.tla states the compiler as a machine whose every stage has exactly the outcomes ok and err, with stage dependencies; each input is run through parse, format, type_check, transform, linearize, standardize and solve in a child process (panics, aborts and hangs are observed) and the recorded stage outcomes must be a behaviour of that machine within the time limit.",
-                note="hangs are observable only as the watchdog limit (12 s per stage); memory safety is out of scope; inputs are sampled; widths stay where the dense standard form is a few million entries"),
+                note="hangs are observable only as the watchdog limit (12 s per stage); memory safety is out of scope; inputs are sampled; widths stay where the dense standard form is a few million entries; the ladders include nests of min / max blocks and of non-range iterators to depth 64, products of sums, the operator matrix at the integer limits, flat chains on a 2 MiB thread, and the builder's sum() over 5000 variables (the child builds that model itself)"),
     "C06": dict(level="model_checking", ref="4/C06", technique="TLA+ reference semantics of iteration/aggregation constructs (Expand.tla: Envs, Unroll) generating program + unrolled twin; TLA+ trace validation (ExpandTrace) of row-for-row equality of the two real compilations",
                 text="Expand.tla defines the meaning of binders (ranges, inclusive ranges, len, arrays, enumerate, nested arrays, graph nodes and edges with weights, dependent bounds), indexed names, coefficients from data and sum/min/max/avg blocks, and prints for every program of its families the text with constructs and the text it unrolls; both are compiled by the real front end and linearizer and must be equal row for row.",
-                note="data is fixed in the specification; the families (one, enum, graph, prod, logic, sets, scope) are enumerated completely, three-row mixes are simulated; Models are also compared before linearization on sample assignments; the scoping rule (no re-binding of an enclosing name) is part of the specification"),
+                note="data is fixed in the specification; the families (one, enum, graph, prod, logic, sets, alias - the second names of the built-ins -, mixed, scope) are enumerated completely, three-row mixes are simulated; Models are also compared before linearization on sample assignments; the scoping rule (no re-binding of an enclosing name) is part of the specification"),
     "C19": dict(level="model_checking", ref="4/C19", technique="TLA+ trace validation (TypeTrace: classification of transform failures into type-class and data-dependent from the error's own structure) of type_check followed by transform on the complete (position x filler) family of TypeGen.tla",
                 text="TypeGen.tla enumerates every pair of a program position (operand, index, bound, iteration source, function argument, array index, aggregation body, destructuring pattern, declaration bound, logic operand, let body) and a filler of a chosen type; the real type checker and transformer run on each; TypeTrace.tla accepts an event iff acceptance implies that transform succeeds or fails with a data-dependent error.",
                 note="soundness only; five classes of genuine type-checker holes are listed as known findings"),
-    "C16": dict(level="model_checking", ref="4/C16", technique="TLC-enumerated call plans of the builder state machine (Builder.tla) executed against the real ModelBuilder, TLA+ trace validation (DoorsTrace + Judge) of the answers of six front doors against the abstract model, a TLC-checked typed pipe machine (Pipes.tla) whose every run is replayed through PipeRunner, and declaration doors (Decls.tla)",
+    "C16": dict(level="model_checking", ref="4/C16", technique="TLC-enumerated call plans of the builder state machine (Builder.tla) executed against the real ModelBuilder, TLA+ trace validation (DoorsTrace + Judge) of the answers of seven front doors against the abstract model, a TLC-checked typed pipe machine (Pipes.tla) whose every run is replayed through PipeRunner, and declaration doors (Decls.tla)",
                 text="Builder.tla states the fluent builder as a machine (with / with_all / objective calls; last objective wins) and TLC enumerates every call plan up to four calls; each sampled abstract model is built through a plan with the real builder (methods and operators) and also compiled from text, from text with API-supplied constants, through the pipe runner and through the one-shot solver. DoorsTrace.tla judges every door's answer by complete enumeration of the domains, compares rows when trees are identical and checks handle / name / eval read-backs.",
-                note="integer and Boolean domains; the builder is driven both with Expr operands and natively (most specific overloads, sum, list helpers, constraint!); vars!, add_var/add_vars and define are compared by Decls.tla; every pipe sequence up to 8 by Pipes.tla"),
+                note="integer and Boolean domains; the builder is driven both with Expr operands and natively (most specific overloads, sum, list helpers, constraint!); vars!, add_var/add_vars and define are compared by Decls.tla; every pipe sequence up to 8 by Pipes.tla; every chain of up to three -> / <-> through constraint!, expr! and the text by Chains.tla against Pratt.tla; programs the static typing refuses are judged by the weaker rule IllTyped (a door that answers answers right); door M is the builder through the MicroLP solver object"),
 }
 NOT_YET = {}
 ALL = [f"C{i:02d}" for i in range(1, 21)]
